@@ -181,3 +181,272 @@ UNITS = [
          note="PhysicsStepView::deposit_energy: dep' == dep + e exactly, only this slot written"),
     Unit("c01_psv_reset", build_psv_reset, "h_psv", enforce="PSVR_reset", timeout=120, must_have=[r"PSVR_reset.postcondition"], checks=LEAF_CHECKS, note="PhysicsStepView::reset_energy_deposition"),
 ]
+
+
+# ---------------------------------------------------------------------------
+# ElossApplier<EH>::operator()
+# ---------------------------------------------------------------------------
+EH_STUB = """
+real_type g_d; unsigned g_calls;   /* ghost: the amount the energy-loss helper returned; number of calls */
+bool EH_is_applicable(CoreTrackView const* track)      /* any answer, no side effect */
+__CPROVER_requires(VIEW_OK(track))
+__CPROVER_assigns()
+__CPROVER_ensures(1)
+;
+/* contract of the helper EH = what MeanELoss::calc_eloss / FluctELoss::calc_eloss guarantee (their own CELER_ENSUREs and cut rule):
+ *   0 <= loss <= E;  loss == E only if the cut applied or the step is range-limited;  with the cut: all of it, or the rest stays above the cut */
+real_type EH_calc_eloss(CoreTrackView const* track, real_type step, bool apply_cut)
+__CPROVER_requires(VIEW_OK(track) && step > 0)
+__CPROVER_assigns(g_d, g_calls)
+__CPROVER_ensures(__CPROVER_return_value >= 0 && __CPROVER_return_value <= track->t->energy)
+__CPROVER_ensures(__CPROVER_return_value == track->t->energy ==> (apply_cut || track->t->post_step_action == track->t->range_action))
+__CPROVER_ensures(apply_cut ==> (__CPROVER_return_value == track->t->energy || track->t->energy - __CPROVER_return_value > track->t->lowest_electron_energy))
+__CPROVER_ensures(g_d == __CPROVER_return_value && g_calls == __CPROVER_old(g_calls) + 1)
+;
+"""
+
+ELA_RULES = Q_RULES + [
+    Rule(r"auto particle = track\.make_particle_view\(\);", "ParticleTrackView particle = CTV_make_particle_view(track);", 1, note="typed view handle"),
+    Rule(r"auto sim = track\.make_sim_view\(\);", "SimTrackView sim = CTV_make_sim_view(track);", 1, note="typed view handle"),
+    Rule(r"auto step = sim\.step_length\(\);", "real_type step = STV_step_length(&sim);", 1, note="auto -> real_type"),
+    Rule(r"auto post_step_action = sim\.post_step_action\(\);", "ActionId post_step_action = STV_post_step_action(&sim);", 1, note="auto -> ActionId"),
+    Rule(r"auto deposited = eloss\.calc_eloss\(track, step, apply_cut\);", "real_type deposited = EH_calc_eloss(track, step, apply_cut);", 1, note="EH member call -> stub with contract"),
+    Rule(r"eloss\.is_applicable\(track\)", "EH_is_applicable(track)", 1, note="EH member call -> stub"),
+    Rule(r"auto step = track\.make_physics_step_view\(\);", "PhysicsStepView step = CTV_make_physics_step_view(track);", 1, note="typed view handle (inner scope shadows the step length, as in the original)"),
+    Rule(r"auto const phys = track\.make_physics_view\(\);", "PhysicsTrackView const phys = CTV_make_physics_view(track);", 1, note="typed view handle"),
+    Rule(r"track\.make_physics_view\(\)\.scalars\(\)\.lowest_electron_energy", "track->t->lowest_electron_energy", "*", note="temporary view: scalars().lowest_electron_energy"),
+    Rule(r"phys\.scalars\(\)\.(range_action|discrete_action)\(\)", r"track->t->\1", "*", note="scalars().X_action()"),
+    Rule(r"step\.deposit_energy\(", "PSV_deposit_energy(&step, ", "*", note="view member call"),
+    Rule(r"particle\.subtract_energy\(", "PTV_subtract_energy(&particle, ", "*", note="view member call"),
+    Rule(r"particle\.(energy|is_stopped)\(\)", r"PTV_\1(&particle)", "*", note="view member call"),
+    Rule(r"phys\.has_at_rest\(\)", "PHV_has_at_rest(&phys)", "*", note="view member call"),
+    Rule(r"sim\.status\(TrackStatus::killed\);", "STV_status_set(&sim, TS_killed);", "*", note="view setter"),
+    Rule(r"sim\.post_step_action\(([^()]+)\);", r"STV_post_step_action_set(&sim, \1);", "*", note="view setter"),
+    Rule(r"track\.boundary_action\(\)", "CTV_boundary_action(track)", "*", note="CoreTrackView member"),
+]
+
+
+def build_eloss_applier(ctx):
+    pc = ctx.func(ELA, r"CELER_FUNCTION void ElossApplier<EH>::operator\(\)\(CoreTrackView const& track\)", ELA_RULES, name="ElossApplier<EH>::operator()")
+    return (VHDR + EH_STUB + """
+#define T0(f) __CPROVER_old(track->t->f)
+void ELA_call(CoreTrackView const* track)
+__CPROVER_requires(VIEW_OK(track) && g_calls == 0)
+/* state invariants of a track inside the along-step kernel */
+__CPROVER_requires(track->t->energy >= 0 && !__CPROVER_isinfd(track->t->energy) && track->t->energy_deposition >= 0 && !__CPROVER_isinfd(track->t->energy_deposition))
+__CPROVER_requires(track->t->step_length > 0 && track->t->lowest_electron_energy >= 0)
+__CPROVER_requires(track->t->status >= 0 && track->t->status < 5 && track->t->status != TS_killed)
+__CPROVER_requires(track->t->range_action != INVALID_ID && track->t->discrete_action != INVALID_ID && track->t->boundary_action != INVALID_ID)
+__CPROVER_requires(track->t->boundary_action != track->t->range_action)   /* distinct actions have distinct ids (ActionRegistry) */
+__CPROVER_assigns(track->t->energy, track->t->energy_deposition, track->t->status, track->t->post_step_action, g_d, g_calls)
+/* LEDGER: either nothing moved, or exactly the helper's amount d left the particle and was deposited, once */
+__CPROVER_ensures((g_calls == 0 || g_d == 0)
+                      ? (track->t->energy == T0(energy) && track->t->energy_deposition == T0(energy_deposition))
+                      : (g_calls == 1 && track->t->energy == T0(energy) - g_d && track->t->energy_deposition == T0(energy_deposition) + g_d))
+/* kinetic energy never increases and never goes negative */
+__CPROVER_ensures(track->t->energy >= 0 && track->t->energy <= T0(energy))
+/* a particle that stops during this step is killed with the range action, or forced into a discrete (at-rest) interaction */
+__CPROVER_ensures((g_calls == 1 && track->t->energy == 0) ==> (track->t->has_at_rest ? (track->t->post_step_action == track->t->discrete_action && track->t->status == T0(status))
+                                                                                         : (track->t->post_step_action == track->t->range_action && track->t->status == TS_killed)))
+__CPROVER_ensures(!(g_calls == 1 && track->t->energy == 0) ==> (track->t->status == T0(status) && track->t->post_step_action == T0(post_step_action)))
+{""" + pc.body + """}
+void h_ela(void)
+{
+    Track t; CoreTrackView v = {&t};
+    unsigned r1, r2; t.antiparticle = (r1 != 0); t.has_at_rest = (r2 != 0);
+    ELA_call(&v);
+    VERIF_CANARY();
+}
+""")
+
+
+# ---------------------------------------------------------------------------
+# TrackingCutExecutor::operator()
+# ---------------------------------------------------------------------------
+TCE_RULES = Q_RULES + [
+    Rule(r"using Energy = ParticleTrackView::Energy;", "", 1, note="type alias dropped"),
+    Rule(r"#if !CELER_DEVICE_COMPILE.*?#endif", "", 1, flags=16, note="host logging block dropped (no effect on state)"),
+    Rule(r"auto particle = track\.make_particle_view\(\);", "ParticleTrackView particle = CTV_make_particle_view(track);", 1, note="typed view handle"),
+    Rule(r"auto sim = track\.make_sim_view\(\);", "SimTrackView sim = CTV_make_sim_view(track);", 1, note="typed view handle"),
+    Rule(r"auto deposited = particle\.energy\(\);", "real_type deposited = PTV_energy(&particle);", 1, note="auto -> real_type"),
+    Rule(r"track\.make_physics_step_view\(\)\.deposit_energy\(", "{ PhysicsStepView psv_ = CTV_make_physics_step_view(track); PSV_deposit_energy(&psv_, ", "*", note="temporary view member call"),
+    Rule(r"(PSV_deposit_energy\(&psv_, [^;]*\));", r"\1; }", 1, note="close temporary scope"),
+    Rule(r"particle\.subtract_energy\(particle\.energy\(\)\);", "PTV_subtract_energy(&particle, PTV_energy(&particle));", "*", note="view member calls"),
+    Rule(r"particle\.(is_antiparticle|mass)\(\)", r"PTV_\1(&particle)", "*", note="view member call"),
+    Rule(r"sim\.status\(TrackStatus::killed\);", "STV_status_set(&sim, TS_killed);", "*", note="view setter"),
+]
+
+
+def build_tracking_cut(ctx):
+    pc = ctx.func(TCE, r"^TrackingCutExecutor::operator\(\)\(celeritas::CoreTrackView& track\)", TCE_RULES, name="TrackingCutExecutor::operator()")
+    return (VHDR + """
+#define T0(f) __CPROVER_old(track->t->f)
+void TCE_call(CoreTrackView* track)
+__CPROVER_requires(VIEW_OK(track))
+__CPROVER_requires(track->t->energy >= 0 && !__CPROVER_isinfd(track->t->energy) && track->t->mass >= 0 && !__CPROVER_isinfd(track->t->mass))
+__CPROVER_requires(track->t->energy_deposition >= 0 && !__CPROVER_isinfd(track->t->energy_deposition))
+__CPROVER_assigns(track->t->energy, track->t->energy_deposition, track->t->status)
+/* everything the particle still carries is deposited locally, plus 2mc^2 when an antiparticle (positron) is destroyed */
+__CPROVER_ensures(track->t->energy_deposition == T0(energy_deposition) + (T0(antiparticle) ? T0(energy) + 2 * T0(mass) : T0(energy)))
+__CPROVER_ensures(track->t->energy == 0 && track->t->status == TS_killed)
+{""" + pc.body + """}
+void h_tce(void)
+{
+    Track t; CoreTrackView v = {&t};
+    unsigned r1; t.antiparticle = (r1 != 0);
+    __CPROVER_assume(t.status >= 0 && t.status < 5);
+    TCE_call(&v);
+    VERIF_CANARY();
+}
+""")
+
+
+UNITS += [
+    Unit("c01_eloss_applier", build_eloss_applier, "h_ela", enforce="ELA_call", backend=["sat", "cvc5"], replace=["EH_is_applicable", "EH_calc_eloss", "PSV_deposit_energy", "PTV_subtract_energy", "STV_status_set", "STV_post_step_action_set"], timeout=300,
+         must_have=[r"ELA_call.postcondition", r"celer_assert", r"PTV_subtract_energy.precondition", r"PSV_deposit_energy.precondition", r"EH_calc_eloss.precondition"],
+         checks=["--bounds-check", "--pointer-check"],
+         assumptions=["energy-loss helper EH satisfies the stated contract (for MeanELoss it is enforced in c01_mean_eloss; FluctELoss sampler not verified)",
+                      "boundary action id != range action id (distinct registered actions)"],
+         note="ElossApplier: what leaves the particle is exactly what is deposited (same machine value d), once; 0 <= E' <= E; callee preconditions and the three in-body CELER_ASSERTs hold; stopped => killed/range or discrete at-rest"),
+    Unit("c01_tracking_cut", build_tracking_cut, "h_tce", enforce="TCE_call", backend=["sat", "cvc5"], replace=["PSV_deposit_energy", "PTV_subtract_energy", "STV_status_set"], timeout=300,
+         must_have=[r"TCE_call.postcondition", r"PTV_subtract_energy.precondition", r"PSV_deposit_energy.precondition"], checks=["--bounds-check", "--pointer-check"],
+         assumptions=["host logging block dropped"],
+         note="TrackingCutExecutor: deposits E (+2mc^2 for antiparticles), E' == 0, killed"),
+]
+
+
+# ---------------------------------------------------------------------------
+# calc_mean_energy_loss and MeanELoss::calc_eloss
+# ---------------------------------------------------------------------------
+CALC_STUBS = """
+/* assumed contracts on the physics tables (the calculators themselves: index safety under C14; values are data) */
+size_type PHV_value_grid(PhysicsTrackView const* self, int vgt, size_type ppid)     /* a grid exists for every process that has continuous loss */
+__CPROVER_requires(VIEW_OK(self) && ppid != INVALID_ID)
+__CPROVER_assigns()
+__CPROVER_ensures(__CPROVER_return_value != INVALID_ID)
+;
+real_type ELC_call(size_type grid_id, real_type energy)     /* EnergyLossCalculator: dE/dx >= 0, finite */
+__CPROVER_requires(grid_id != INVALID_ID && energy >= 0)
+__CPROVER_assigns()
+__CPROVER_ensures(__CPROVER_return_value >= 0 && !__CPROVER_isinfd(__CPROVER_return_value) && !__CPROVER_isnand(__CPROVER_return_value))
+;
+real_type g_E;   /* ghost: pre-step energy, for the inverse-range stub's contract */
+real_type IRC_call(size_type grid_id, real_type range)      /* InverseRangeCalculator: energy with the given remaining range, in [0, E]; positive for positive range */
+__CPROVER_requires(grid_id != INVALID_ID && range >= 0)
+__CPROVER_assigns()
+__CPROVER_ensures(__CPROVER_return_value >= 0 && __CPROVER_return_value <= g_E && (range > 0 ==> (__CPROVER_return_value > 0 && g_E - __CPROVER_return_value < g_E)))
+;
+enum { VGT_macro_xs = 0, VGT_energy_loss = 1, VGT_range = 2 };   /* ValueGridType (bound) */
+/* IEEE-754 facts about correctly rounded multiplication, assumed (no installed solver decides 53-bit FP products; checked for
+ * binary32 in unit c01_fmul_lemmas_f32): rounding is monotone, so  x >= 0, 0 < l <= 1  =>  0 <= x*l <= x,  and  a > 0, b >= 0  =>  a*b >= 0 */
+real_type FMUL_frac(real_type x, real_type l)
+__CPROVER_requires(x >= 0 && l > 0 && l <= 1)
+__CPROVER_assigns()
+__CPROVER_ensures(__CPROVER_return_value >= 0 && __CPROVER_return_value <= x)
+;
+real_type FMUL_nonneg(real_type a, real_type b)
+__CPROVER_requires(a > 0 && b >= 0)
+__CPROVER_assigns()
+__CPROVER_ensures(__CPROVER_return_value >= 0)
+;
+"""
+
+CMEL_RULES = Q_RULES + [
+    Rule(r"using Energy = ParticleTrackView::Energy;", "typedef real_type Energy;", 1, note="Quantity alias -> real_type"),
+    Rule(r"using VGT = ValueGridType;", "", 1, note="enum alias dropped"),
+    Rule(r"static_assert\(.*?\);", "", 1, flags=16, note="static_assert on units dropped"),
+    Rule(r"VGT::(\w+)", r"VGT_\1", "*", note="enum class value (bound)"),
+    Rule(r"auto ppid = physics\.eloss_ppid\(\);", "size_type ppid = PHV_eloss_ppid(physics);", 1, note="auto -> id"),
+    Rule(r"CELER_EXPECT\(physics\.eloss_ppid\(\)\);", "CELER_EXPECT(PHV_eloss_ppid(physics) != INVALID_ID);", 1, note="OpaqueId::operator bool"),
+    Rule(r"Energy const pre_step_energy = particle\.energy\(\);", "Energy const pre_step_energy = PTV_energy(particle); g_E = pre_step_energy;", 1, note="view call; ghost"),
+    Rule(r"auto grid_id = physics\.value_grid\(([^;]*)\);", r"size_type grid_id = PHV_value_grid(physics, \1);", "*", note="view call"),
+    Rule(r"CELER_ASSERT\(grid_id\);", "CELER_ASSERT(grid_id != INVALID_ID);", "*", note="OpaqueId::operator bool"),
+    Rule(r"auto calc_eloss_rate\s*=\s*physics\.make_calculator<EnergyLossCalculator>\(grid_id\);", "size_type calc_eloss_rate = grid_id;", 1, note="calculator object -> its grid id (functor call lowered below)"),
+    Rule(r"step \* calc_eloss_rate\(pre_step_energy\)", "FMUL_nonneg(step, ELC_call(calc_eloss_rate, pre_step_energy))", 1, note="functor call -> stub; FP product -> assumed IEEE lemma (a>0,b>=0 => a*b>=0)"),
+    Rule(r"auto calc_energy\s*=\s*physics\.make_calculator<InverseRangeCalculator>\(grid_id\);", "size_type calc_energy = grid_id;", 1, note="calculator object -> its grid id"),
+    Rule(r"calc_energy\(range - step\)", "IRC_call(calc_energy, range - step)", 1, note="functor call -> stub"),
+    Rule(r"pre_step_energy \* physics\.scalars\(\)\.linear_loss_limit", "FMUL_frac(pre_step_energy, physics->t->linear_loss_limit)", 1, note="FP product -> assumed IEEE lemma (0 <= x*l <= x for 0<l<=1)"),
+    Rule(r"physics\.dedx_range\(\)", "PHV_dedx_range(physics)", 1, note="view call"),
+    Rule(r"Energy eloss;", "Energy eloss = 0;", 1, note="Quantity default = 0"),
+]
+
+
+def piece_cmel(ctx):
+    return ctx.func(PSU, r"^calc_mean_energy_loss\(ParticleTrackView const& particle,", CMEL_RULES, name="calc_mean_energy_loss")
+
+
+CMEL_SIG = """
+real_type calc_mean_energy_loss(ParticleTrackView const* particle, PhysicsTrackView const* physics, real_type step)
+__CPROVER_requires(%s)
+__CPROVER_requires(step > 0 && physics->t->eloss_ppid != INVALID_ID)      /* own CELER_EXPECTs */
+/* state: finite non-negative energy; 0 < linear_loss_limit <= 1 (validated by PhysicsParams); the step does not exceed the range (pre-step limit) */
+__CPROVER_requires(particle->t->energy >= 0 && !__CPROVER_isinfd(particle->t->energy) && physics->t->linear_loss_limit > 0 && physics->t->linear_loss_limit <= 1)
+__CPROVER_requires(!__CPROVER_isinfd(step) && physics->t->dedx_range >= step && !__CPROVER_isinfd(physics->t->dedx_range))
+__CPROVER_assigns(g_E)
+/* non-negative, never more than the particle has */
+__CPROVER_ensures(__CPROVER_return_value >= 0 && __CPROVER_return_value <= particle->t->energy)
+/* a range-limited step loses everything, exactly, unless the linear estimate is below the linear-loss limit (then it is below E) */
+__CPROVER_ensures((step == physics->t->dedx_range && __CPROVER_return_value != particle->t->energy) ==> __CPROVER_return_value < particle->t->energy)
+__CPROVER_ensures((__CPROVER_return_value == particle->t->energy && particle->t->energy > 0) ==> step == physics->t->dedx_range)
+"""
+
+
+def build_cmel(ctx):
+    pc = piece_cmel(ctx)
+    return (VHDR + CALC_STUBS + CMEL_SIG % "VIEW_OK(particle) && VIEW_OK(physics) && particle->t == physics->t" + "{" + pc.body + """}
+void h_cmel(void)
+{
+    Track t; ParticleTrackView p = {&t}; PhysicsTrackView ph = {&t}; real_type step;
+    calc_mean_energy_loss(&p, &ph, step);
+    VERIF_CANARY();
+}
+""")
+
+
+MEL_RULES = Q_RULES + [
+    Rule(r"auto particle = track\.make_particle_view\(\);", "ParticleTrackView particle = CTV_make_particle_view(track);", 1, note="typed view handle"),
+    Rule(r"auto phys = track\.make_physics_view\(\);", "PhysicsTrackView phys = CTV_make_physics_view(track);", 1, note="typed view handle"),
+    Rule(r"particle\.energy\(\)", "PTV_energy(&particle)", "*", note="view call"),
+    Rule(r"phys\.scalars\(\)\.lowest_electron_energy", "track->t->lowest_electron_energy", "*", note="scalars().lowest_electron_energy"),
+    Rule(r"phys\.scalars\(\)\.range_action\(\)", "track->t->range_action", "*", note="scalars().range_action()"),
+    Rule(r"Energy eloss = calc_mean_energy_loss\(particle, phys, step\);", "real_type eloss = calc_mean_energy_loss(&particle, &phys, step);", 1, note="const& args -> pointers"),
+    Rule(r"track\.make_sim_view\(\)\.post_step_action\(\)", "track->t->post_step_action", "*", note="temporary view: sim.post_step_action()"),
+]
+
+
+def build_mean_eloss(ctx):
+    pc = ctx.func(MEL, r"CELER_FUNCTION auto MeanELoss::calc_eloss\(CoreTrackView const& track,", MEL_RULES, name="MeanELoss::calc_eloss")
+    return (VHDR + CALC_STUBS.split("/* assumed contracts")[0] + "real_type g_E;\n" + CMEL_SIG % "VIEW_OK(particle) && VIEW_OK(physics)" + ";\n" + """
+real_type g_d; unsigned g_calls;
+real_type MEL_calc_eloss(CoreTrackView const* track, real_type step, bool apply_cut)
+__CPROVER_requires(VIEW_OK(track) && step > 0)     /* own CELER_EXPECT */
+__CPROVER_requires(track->t->eloss_ppid != INVALID_ID)   /* is_applicable() */
+__CPROVER_requires(track->t->energy > 0 && !__CPROVER_isinfd(track->t->energy) && track->t->lowest_electron_energy >= 0 && track->t->linear_loss_limit > 0 && track->t->linear_loss_limit <= 1)
+__CPROVER_requires(!__CPROVER_isinfd(step) && track->t->dedx_range >= step && !__CPROVER_isinfd(track->t->dedx_range))
+/* history: a step that equals the range was limited by the range limiter, which records the range action (calc_physics_step_limit) */
+__CPROVER_requires(step == track->t->dedx_range ==> track->t->post_step_action == track->t->range_action)
+__CPROVER_assigns(g_E)
+/* exactly the contract the ElossApplier relies on (EH_calc_eloss in unit c01_eloss_applier) */
+__CPROVER_ensures(__CPROVER_return_value >= 0 && __CPROVER_return_value <= track->t->energy)
+__CPROVER_ensures(__CPROVER_return_value == track->t->energy ==> (apply_cut || track->t->post_step_action == track->t->range_action))
+__CPROVER_ensures(apply_cut ==> (__CPROVER_return_value == track->t->energy || track->t->energy - __CPROVER_return_value > track->t->lowest_electron_energy))
+{""" + pc.body + """}
+void h_mel(void)
+{
+    Track t; CoreTrackView v = {&t}; real_type step; unsigned r; bool cut = (r != 0);
+    MEL_calc_eloss(&v, step, cut);
+    VERIF_CANARY();
+}
+""")
+
+
+UNITS += [
+    Unit("c01_calc_mean_energy_loss", build_cmel, "h_cmel", enforce="calc_mean_energy_loss", replace=["PHV_value_grid", "ELC_call", "IRC_call", "FMUL_frac", "FMUL_nonneg"], timeout=300, backend=["sat", "cvc5"],
+         must_have=[r"calc_mean_energy_loss.postcondition", r"celer_assert", r"ELC_call.precondition", r"IRC_call.precondition"], checks=["--bounds-check", "--pointer-check"],
+         assumptions=["table calculators satisfy: dE/dx >= 0 finite; inverse range in [0, E], positive and not negligible against E (E - e < E in double) for positive remaining range (assumed on the data; for arbitrary tables rounding can make E - e == E, which would break MeanELoss's own CELER_ENSURE)", "0 < linear_loss_limit <= 1; step <= range (pre-step limit)", "two monotonicity lemmas of IEEE multiplication (0<=x*l<=x for 0<l<=1; a*b>=0) are assumed, not discharged"],
+         note="calc_mean_energy_loss: 0 <= loss <= E; step == range => loss == E exactly (or linear branch); the in-body CELER_ASSERT(range > step) and grid-id asserts hold"),
+    Unit("c01_mean_eloss", build_mean_eloss, "h_mel", enforce="MEL_calc_eloss", replace=["calc_mean_energy_loss"], timeout=300, backend=["sat", "cvc5"],
+         must_have=[r"MEL_calc_eloss.postcondition", r"celer_ensure", r"calc_mean_energy_loss.precondition"], checks=["--bounds-check", "--pointer-check"],
+         assumptions=["a step equal to the range carries the range action (set by calc_physics_step_limit; history-dependent precondition)"],
+         note="MeanELoss::calc_eloss satisfies the helper contract used by ElossApplier (loss <= E, cut rule), its own CELER_ENSUREs hold"),
+]
